@@ -2483,7 +2483,10 @@ def vspace_cases(tier):
     cases = [("real scalar", SC), ("complex scalar", CSC), ("0-d real", R()), ("real (2,)", R(2)), ("real (2,1,2)", R(2, 1, 2)), ("real size-0 (0,)", R(0)), ("real size-0 (2,0)", R(2, 0)),
              ("complex (2,)", Cx(2)), ("complex 0-d", Cx()), ("complex (1,2)", Cx(1, 2)), ("complex size-0", Cx(0)), ("complex (2,3)", Cx(2, 3)), ("real (3,2)", R(3, 2)),
              ("tuple (array, scalar)", (R(2), SC)), ("list [array, complex array]", [R(2), Cx(2)]), ("dict {a: array, b: scalar}", {"a": R(2), "b": SC}),
-             ("nested tuple in list in dict", {"p": [(R(1), SC), R(2)], "q": CSC}), ("empty tuple", ()), ("tuple with empty list", (R(1), [])), ("empty dict", {})]
+             ("nested tuple in list in dict", {"p": [(R(1), SC), R(2)], "q": CSC}), ("empty tuple", ()), ("tuple with empty list", (R(1), [])), ("empty dict", {}),
+             # siblings with EQUAL vector spaces (same shape and dtype): slots are told apart by position / key, not by their space
+             ("tuple of two equal-shaped arrays", (R(2), R(2))), ("list of two scalars", [SC, SC]), ("dict with two equal-shaped matrices", {"W1": R(2, 2), "W2": R(2, 2), "b": R(2)}),
+             ("list of equal (array, scalar) pairs", [(R(1), SC), (R(1), SC)]), ("tuple of three equal complex arrays", (Cx(1), Cx(1), Cx(1)))]
     if tier == "thorough":
         cases += [("real (2,3,2)", R(2, 3, 2)), ("complex (2,2)", Cx(2, 2)), ("deep nesting", ((R(1), (R(1), [R(1), {"z": SC}])),))]
     return cases
@@ -2947,6 +2950,10 @@ def zero_cases(tier):
     c.append(("sum / prod of an empty slice", lambda np, x: np.sum(x[2:2] * 3.0) + np.prod(x[5:]) + np.sum(x[:, :0] if np.ndim(x) > 1 else x[:0]), R(3)))
     c.append(("concatenate of empty pieces only", lambda np, x: np.sum(np.concatenate([x[:0], x[3:]])) + 1.0, R(3)))
     c.append(("triu above the last diagonal / diag outside the matrix", lambda np, x: np.sum(np.triu(x, 5)) + np.sum(np.diag(x, 4)) + 0.0, R(2, 3)))
+    # constant pieces holding inf / nan next to the argument: the zero block of the OTHER pieces must be an exact zero (0 * inf is nan)
+    NF = onp.array([onp.inf, -onp.inf, onp.nan])
+    c.append(("only the non-finite constant piece of a concatenation is read", lambda np, x: np.concatenate([x, NF])[2:] if np is not onp else onp.array([1.0, 2.0, 3.0]), R(2)))
+    c.append(("only the non-finite constant piece of append / hstack / stack is read", lambda np, x: (np.append(x, NF)[2:] * 1.0 + np.hstack([NF, x])[:3] + np.stack([x, NF[:2]])[1, 0]) if np is not onp else onp.array([1.0, 2.0, 3.0]), R(2)))
     # an inner derivative whose value depends on the OUTER argument only through two-argument non-differentiable functions
     # (operands of different nesting levels in one call)
     def _inner(np, body, at):
